@@ -179,6 +179,8 @@ class OdRun(object):
             for f in op[1]:
                 r[L(f)] = m[L(f)]
             return RET(od_model_state(self.spec.name, r))
+        if n == "reorder" and op[1] == "self":
+            return OK          # every key moved to the end in its own order: nothing changes
         if n == "reorder":
             ep = self.eff("odict", op[1])
             if len(set(L(k) for k, _ in ep)) != len(ep):
@@ -268,6 +270,8 @@ class OdRun(object):
             return od_state(c)
         if n == "sift":
             return od_state(d.sift(op[1]))
+        if n == "reorder" and op[1] == "self":
+            return d.reorder(d)
         if n == "reorder":
             return d.reorder(odict([tuple(p) for p in op[1]]))
         if n == "eq":
@@ -376,7 +380,7 @@ class OdSpec(object):
         if n == "sift":
             return [n, None if rng.random() < 0.2 else [rng.choice(KEYS) for _ in range(rng.randint(0, 3))]]
         if n == "reorder":
-            return [n, self.pairs(rng)]
+            return [n, "self" if rng.random() < 0.15 else self.pairs(rng)]
         if n == "eq":
             return [n, [[kk, vv] for kk, vv in self.pairs(rng) if self.name != "lodict" or kk == kk.lower()]]
         if n == "fromkeys":
@@ -391,7 +395,7 @@ class OdSpec(object):
         return [["set", a, 1], ["set", b, 2], ["set", "c", 3], ["del", a], ["pop", b], ["popd", a], ["popitem"],
                 ["setdefault", b, 4], ["insert", 0, b, 5], ["insert", 1, "c", 6], ["append", a, 7],
                 ["create", "kw", [[a, 8], ["c", 9]]], ["update", "pairs", [["c", 10], [b, 11]]],
-                ["reorder", [[a, 12]]], ["sift", [b]], ["get", b], ["copy"]]
+                ["reorder", [[a, 12]]], ["reorder", "self"], ["sift", [b]], ["get", b], ["copy"]]
 
     def full_alphabet(self):
         ks = ["a", "b"] if self.name == "odict" else ["a", "A", "Ab"]
@@ -409,7 +413,7 @@ class OdSpec(object):
         for form in ("pairs", "dict", "odict", "same", "kw", "mixed", "gen"):
             al += [["update", form, two], ["create", form, two], ["ctor", form, two]]
         al += [["popitem"], ["clear"], ["copy"], ["deepcopy"], ["copycopy"], ["pickle", 2], ["pickle", 4],
-               ["pickle", 5], ["sift", None], ["sift", []], ["reorder", two], ["ior", two],
+               ["pickle", 5], ["sift", None], ["sift", []], ["reorder", two], ["reorder", "self"], ["ior", two],
                ["eq", [[ks[0], 101]]], ["eq", []]]
         return al
 
